@@ -7,10 +7,10 @@ export CARGO_NET_OFFLINE=true
 git diff > /tmp/confirm_$$.diff
 [ -s /tmp/confirm_$$.diff ] || git apply "$sd/patch.diff"
 cp "$sd/demo.rs" "crates/$crate/tests/zz_seed_demo.rs"
-cargo test -p "$crate" --test zz_seed_demo --offline > "$sd/confirm_with.log" 2>&1; with_rc=$?
+cargo test -p "$crate" ${FEATURES:+--features "$FEATURES"} --test zz_seed_demo --offline > "$sd/confirm_with.log" 2>&1; with_rc=$?
 git stash -q -- crates ':!crates/'"$crate"'/tests/zz_seed_demo.rs' 2>/dev/null || git stash -q
 # the demo file is untracked, so it survives the stash
-cargo test -p "$crate" --test zz_seed_demo --offline > "$sd/confirm_without.log" 2>&1; without_rc=$?
+cargo test -p "$crate" ${FEATURES:+--features "$FEATURES"} --test zz_seed_demo --offline > "$sd/confirm_without.log" 2>&1; without_rc=$?
 git stash pop -q
 rm -f "crates/$crate/tests/zz_seed_demo.rs"
 suite_rc=-1
